@@ -160,6 +160,17 @@ def judge(src, trace, res, diag=None):
       items.append(("function", name, False))
       if not ok:
         viol.append({"kind": "global", "name": name, "declared": "function", "value": brief(sh)})
+        if diag is not None:
+          from vf.oracle import c01_diag
+          try:
+            tree_f = pyast.parse(trace["src"])
+            dgf = {"view": {"found": False, "why": "the stub declares a function/alias for this name"}}
+            cl_f = c01_diag.closure_signature(tree_f, c01_diag.called_functions(tree_f, name))
+            if cl_f:
+              dgf["closure"] = cl_f
+            diag[name] = dgf
+          except Exception as e:  # pylint: disable=broad-except
+            diag[name] = {"error": str(e)}
     elif name in aliases:
       items.append(("alias", name, False))
     else:
